@@ -188,8 +188,18 @@ def _lr_case(rng):
     if r < 0.25 and ls:
         ls.insert(rng.randrange(len(ls) + 1), "")          # an empty line inside / around the pragma block
     tail = rng.choice([[], ["a\tb"], ["a\tb", "1\t2"], ["", "#late v"], ["x", "#late v", ""], ["#k2 v2", "", "a"]])
-    return {"kind": "linereader", "stream": "linereader", "lines": ls + tail, "mode": rng.choice(["Silent", "Lenient", "Strict", None]),
-            "reads": rng.randint(0, 4), "last_eol": rng.random() < 0.8}
+    # lines read with read_line() before the header: a preamble, or the first pragmas themselves
+    pre = 0
+    head = []
+    r = rng.random()
+    if r < 0.3:
+        head = rng.choice([["preamble"], ["x", "y"], ["p1", "p2", "p3"], ["title", ""]])
+        pre = rng.randint(0, len(head) + 1)
+    elif r < 0.45:
+        pre = rng.randint(1, 3)
+    return {"kind": "linereader", "stream": "linereader", "lines": head + ls + tail,
+            "mode": rng.choice(["Silent", "Lenient", "Strict", None]),
+            "reads": rng.randint(0, 4), "last_eol": rng.random() < 0.8, "pre": pre}
 
 
 def _hdr_report_case(rng):
@@ -226,6 +236,9 @@ def corpus():
         # an empty line inside the pragma block ends the block (and the LineReader never gets past it)
         {"kind": "linereader", "stream": "corpus", "lines": ["#version gdc-1.0.0", "", "#k v", "a\tb"], "mode": "Silent",
          "reads": 3, "last_eol": True},
+        # lines consumed before the header: its diagnostics carry the physical numbers 3 and 4
+        {"kind": "linereader", "stream": "corpus", "lines": ["title", "#version v1", "#nosep", "#", "a\tb"],
+         "mode": "Silent", "reads": 1, "last_eol": True, "pre": 1},
         # the header's own report while the reader records column-line and data-line errors
         {"kind": "report", "stream": "corpus", "lines": ["#k", "#version gdc-1.0.0", "a\tb", "1"], "override": None},
         {"kind": "args", "stream": "corpus", "src": None, "version": "gdc-1.0.0", "annotation": "gdc-1.0.0-public",
@@ -313,7 +326,7 @@ def to_model(case):
     if case["kind"] == "report":
         return R.wire_reader(case["lines"], "Silent", case["override"])
     if case["kind"] == "linereader":
-        return R.wire_line_reader(case["lines"], case["mode"], case["reads"], case["last_eol"])
+        return R.wire_line_reader(case["lines"], case["mode"], case["reads"], case["last_eol"], case.get("pre", 0))
     if case["kind"] == "args":
         return R.wire_derive_args(case["src"], case["version"], case["annotation"], case["so"], case["contigs"],
                                   case.get("fai"))
@@ -328,7 +341,7 @@ def run_impl(case):
     if case["kind"] == "report":
         return R.impl_reader_header_report(case["lines"], case["override"])
     if case["kind"] == "linereader":
-        return R.impl_line_reader(case["lines"], case["mode"], case["reads"], case["last_eol"])
+        return R.impl_line_reader(case["lines"], case["mode"], case["reads"], case["last_eol"], case.get("pre", 0))
     if case["kind"] == "args":
         return R.impl_derive_args(case["src"], case["version"], case["annotation"], case["so"], case["contigs"],
                                   case.get("fai"))
@@ -395,10 +408,15 @@ def _lr_oracle(case, obs):
     lines, the reader has counted them and shows the line behind them"""
     out = []
     lines = case["lines"]
-    k = 0
+    start = 0                       # where the reader stands after the read_line() calls made before the header
+    for _ in range(case.get("pre", 0)):
+        if start < len(lines) and lines[start] != "":
+            start += 1
+    k = start
     while k < len(lines) and lines[k].startswith("#"):
         k += 1
-    kept, diags = R.spec_header(lines[:k])
+    kept, diags = R.spec_header(lines[start:k])
+    diags = [[c, n + start] for c, n in diags]      # numbered as lines of the reader's input: physical line numbers
     exp_errs = diags + R.spec_header_checks(kept)
     res = obs["header"]["res"]
     mode = case["mode"] or "Silent"
